@@ -184,7 +184,7 @@ class Run:
             if exact is not None:
                 t = int(exact[0][4:])
             labels = [f"adv:{t}"]
-            loop._vt = self.t0 + t / U
+            loop._vt = self.t0 - simnet.CLOCK_BASE + t / U
         elif label == "record":
             import zeroconf
             from zeroconf import DNSPointer, DNSAddress
